@@ -127,6 +127,33 @@ func Equals(left, right Object) bool {
 	if !TypeEqual(left.Type(), right.Type()) {
 		return false // int and float aren't the same even though they can Cmp to the same value.
 	}
+	// Same rule inside containers: [1] and [1.0] Cmp to 0 but are not equal.
+	switch l := Value(left).(type) {
+	case Array:
+		r, ok := Value(right).(Array)
+		if !ok || l.Len() != r.Len() {
+			return false
+		}
+		rEls := r.Elements()
+		for i, e := range l.Elements() {
+			if !Equals(e, rEls[i]) {
+				return false
+			}
+		}
+		return true
+	case Map:
+		r, ok := Value(right).(Map)
+		if !ok || l.Len() != r.Len() {
+			return false
+		}
+		rEls := r.mapElements()
+		for i, kv := range l.mapElements() {
+			if !Equals(kv.Key, rEls[i].Key) || !Equals(kv.Value, rEls[i].Value) {
+				return false
+			}
+		}
+		return true
+	}
 	return Cmp(left, right) == 0
 }
 
